@@ -280,7 +280,7 @@ def removal_sites(func):
     for node, call in g.find(lambda n: method_call(n, 'remove') and norm(n.func.value) == 'self.cb'):
         out.append(('remove@%d' % len(out), g_eq_fields(g.facts_at(node), norm(call.args[0]), func)))
     for st in walk_own(func.node):
-        if isinstance(st, ast.Assign) and norm(st.targets[0]) == 'self.cb' and isinstance(st.value, ast.ListComp) and len(st.value.generators) == 1 \
+        if isinstance(st, ast.Assign) and norm(st.targets[0]) in ('self.cb', 'self.cb[:]') and isinstance(st.value, ast.ListComp) and len(st.value.generators) == 1 \
                 and norm(st.value.generators[0].iter) == 'self.cb' and norm(st.value.elt) == norm(st.value.generators[0].target):
             gen = st.value.generators[0]
             facts = [f for cond in gen.ifs for f in implied(cond, False)]          # facts that hold for a DROPPED entry
